@@ -181,6 +181,18 @@ def _bin(p):
             o.check("flux_preserved", bool(okf), sub=None if okf else tag)
             okt = y.dtype == x.dtype
             o.check("dtype_kept", okt, sub=None if okt else tag, detail=str(y.dtype))
+            # the same values in other memory layouts (Fortran order, a transposed view, a strided view)
+            big = numpy.zeros(shape[:-2] + (2 * shape[-2], 2 * shape[-1]), dtype=x.dtype)
+            big[..., ::2, ::2] = x
+            layouts = {"fortran": numpy.asfortranarray(x), "strided_view": big[..., ::2, ::2],
+                       "transposed_view": numpy.ascontiguousarray(numpy.swapaxes(x, -1, -2)).swapaxes(-1, -2)}
+            for lname, xl in layouts.items():
+                yl = numpy.asarray(interpolation.binImgs(xl, n))
+                o.stat("lib_calls", 1)
+                okl = yl.shape == oshape and numpy.array_equal(yl, imgops.block_sum(x, n))
+                o.check("block_sums_exact", okl, sub=None if okl else tag + ":layout=" + lname,
+                        detail=None if okl else {"got": yl, "c_contiguous": bool(xl.flags.c_contiguous),
+                                                 "f_contiguous": bool(xl.flags.f_contiguous)})
     o.outcome((a, b, n))
     return o
 
@@ -478,6 +490,19 @@ def _eeunit(n):
         o.close("ee_convex_combination_of_unit_curves", _maxabs(yi - E @ w), TOL_R, sub="dense%d" % k)
         _curve_clauses(o, xi, yi, "dense%d" % k)
         o.close("ee_scale_invariant", _maxabs(f(3.0 * x) - yi), TOL_R, sub="dense%d" % k)
+        # the same image as camera counts in narrow dtypes, scaled to use most of the dtype's range: the curve
+        # is a property of the values, not of how they are stored
+        for dt, top in ((numpy.uint8, 250), (numpy.uint16, 60000), (numpy.int16, 30000), (numpy.int32, 2 ** 30),
+                        (numpy.float32, 1.0)):
+            xq = x / x.max() * top
+            xq = numpy.floor(xq).astype(dt) if numpy.dtype(dt).kind in "iu" else xq.astype(dt)
+            if not xq.any():
+                continue
+            yq, yf = f(xq), f(xq.astype(float))
+            o.stat("lib_calls", 2)
+            o.close("ee_independent_of_storage_dtype", _maxabs(yq - yf), 1e-6 if dt is numpy.float32 else TOL_R,
+                    sub="dense%d:%s" % (k, numpy.dtype(dt).name))
+            _curve_clauses(o, xi, yq, "dense%d:%s" % (k, numpy.dtype(dt).name))
         o.stat("lib_calls", 1 + dm.add(psf, x, xi, yi, "dense%d" % k))
     dm.flush(o)
     o.outcome(E.round(12))
